@@ -2,6 +2,7 @@ import Hdl21Model.Drv.C03
 import Hdl21Model.Drv.C14
 import Hdl21Model.Drv.C18
 import Hdl21Model.Drv.C10
+import Hdl21Model.Drv.C09
 open Lean
 
 /-- Line protocol: one JSON object per input line `{"prop": "C03", "op": ..., ...}`,
@@ -15,6 +16,7 @@ def dispatch (j : Json) : Except String Json := do
   | "C14" => Hdl21.Drv.C14.handle op j
   | "C18" => Hdl21.Drv.C18.handle op j
   | "C10" => Hdl21.Drv.C10.handle op j
+  | "C09" => Hdl21.Drv.C09.handle op j
   | _ => .error s!"unknown prop {prop}"
 
 partial def loop (hin hout : IO.FS.Stream) : IO Unit := do
